@@ -61,6 +61,7 @@ def classify_exception(ex: BaseException, module: str) -> str:
         return "raised"          # unpacking a sequence of another length: the real code raises exactly this
     tb = traceback.extract_tb(ex.__traceback__)
     if tb and tb[-1].filename.startswith("<hoare:"):
+        module = _FILE_MODULE.get(tb[-1].filename, module)       # a helper of another module that was compiled on demand
         try:
             line = core.module_source(module).splitlines()[tb[-1].lineno - 1].strip()
         except Exception:       # noqa: BLE001
@@ -68,6 +69,9 @@ def classify_exception(ex: BaseException, module: str) -> str:
         if line.startswith("raise "):
             return "raised"
     return "left-subset"
+
+
+_FILE_MODULE: Dict[str, str] = {}
 
 
 class _Continue(Exception):
@@ -549,12 +553,6 @@ class NodeSpace:
             def _elements(self):
                 return ChildList(self, sp)
 
-            def contains(self, other, top_level=False):
-                if not top_level:
-                    raise Unsupported("contains(top_level=False)")
-                o = node_key(other)
-                return ctx().decide(z3.And(par(o) == self.t, 0 <= idx(o), idx(o) < nchild(self.t), child(self.t, idx(o)) == o, z3.Not(is_wire(o))), "is a direct child")
-
         class Series(Connection):
             KIND = K_SERIES
             REAL = [("circuit/series", "Series"), ("circuit/base", "Connection")]
@@ -1003,6 +1001,15 @@ class VC:
             return False
         return True
 
+    def any_is(self, seq, x):
+        """any(item is x for item in seq)"""
+        if isinstance(seq, ChildList):
+            if not isinstance(x, NodeBase):
+                return False            # an integer, a string, ...: never one of the children
+            n, o = seq.node.t, x.t
+            return ctx().decide(z3.And(par(o) == n, 0 <= idx(o), idx(o) < nchild(n), child(n, idx(o)) == o, z3.Not(is_wire(o))), "is a direct child")
+        return builtins.any(item is x for item in seq)
+
     def repeat(self, x, n):
         """[x] * n"""
         if isinstance(n, Rv):
@@ -1269,6 +1276,19 @@ class _Rewriter(ast.NodeTransformer):
             ast.fix_missing_locations(s)
         return out
 
+    def visit_Call(self, node):
+        self.generic_visit(node)
+        # any(item is X for item in SEQ): identity membership -- over the children of a symbolic connection this is "X is a direct
+        # child", which the tree theory can state (a generator over a symbolic sequence cannot be run)
+        if isinstance(node.func, ast.Name) and node.func.id == "any" and len(node.args) == 1 and isinstance(node.args[0], ast.GeneratorExp):
+            g = node.args[0]
+            if len(g.generators) == 1 and not g.generators[0].ifs and isinstance(g.generators[0].target, ast.Name) and isinstance(g.elt, ast.Compare) \
+                    and len(g.elt.ops) == 1 and isinstance(g.elt.ops[0], ast.Is) and isinstance(g.elt.left, ast.Name) and g.elt.left.id == g.generators[0].target.id:
+                call = ast.parse("__vc.any_is(0, 0)", mode="eval").body
+                call.args = [g.generators[0].iter, g.elt.comparators[0]]
+                return ast.copy_location(call, node)
+        return node
+
     def visit_BinOp(self, node):
         self.generic_visit(node)
         if isinstance(node.op, ast.Mult) and isinstance(node.left, ast.List) and len(node.left.elts) == 1:
@@ -1478,13 +1498,33 @@ class _LazyGlobals(dict):
     def __missing__(self, name):
         if self._module is None or name.startswith("__"):
             raise KeyError(name)
+        module, fn = self._module, None
         try:
-            fn = core.find_def(self._module, name)
+            fn = core.find_def(module, name)
         except LookupError:
-            raise KeyError(name)
+            # imported into the module from another module of the package (`from .x import name`, `from pyimpspec.x.y import name`)
+            for node in core.module_ast(self._module).body:
+                if isinstance(node, ast.ImportFrom) and any((a.asname or a.name) == name for a in node.names):
+                    orig = next(a.name for a in node.names if (a.asname or a.name) == name)
+                    if node.level >= 1:
+                        base = self._module.split("/")[:-1]
+                        base = base[:len(base) - (node.level - 1)] if node.level > 1 else base
+                        target = "/".join(base + (node.module.split(".") if node.module else []))
+                    elif node.module and node.module.startswith("pyimpspec."):
+                        target = node.module[len("pyimpspec."):].replace(".", "/")
+                    else:
+                        continue
+                    for cand in (target, target + "/__init__"):
+                        try:
+                            fn, module = core.find_def(cand, orig), cand
+                            break
+                        except (LookupError, FileNotFoundError, OSError):
+                            continue
+                if fn is not None:
+                    break
         if not isinstance(fn, ast.FunctionDef):
             raise KeyError(name)
-        f = build_function(fn, dict(self), self._vc, label=name, module=self._module)
+        f = build_function(fn, dict(self), self._vc, label=name, module=module)
         self[name] = f
         return f
 
@@ -1500,6 +1540,8 @@ def build_function(fn: ast.FunctionDef, ns: Dict[str, Any], vc: VC, label: Optio
     ast.fix_missing_locations(mod)
     g = _LazyGlobals(ns, module, vc)
     g["__vc"] = vc
+    if module is not None:
+        _FILE_MODULE[f"<hoare:{label or name}>"] = module
     exec(compile(mod, f"<hoare:{label or name}>", "exec"), g)
     return g[name]
 
